@@ -13,7 +13,7 @@ if r.returncode != 0:
     sys.exit("patch does not apply")
 try:
     for p in props:
-        r = subprocess.run(["bin/check", p, tier], cwd="/verif", capture_output=True, text=True)
+        r = subprocess.run(["bin/check", p, tier], cwd=os.environ.get("VERIF_ROOT", "/verif"), capture_output=True, text=True)
         lines = [l for l in r.stdout.splitlines() if l.startswith(("VIOLATION", "  oracle", "KNOWN", "MACHINERY"))]
         first = next((l.strip()[:300] for l in lines if l.startswith("  oracle")), "")
         verdict = {0: "MISSED (exit 0)", 1: "CAUGHT (exit 1)"}.get(r.returncode, f"MACHINERY exit {r.returncode}")
